@@ -566,14 +566,29 @@ def _split_at_resets(trace_path, outdir, max_lines=15000):
     return chunks
 
 
-def filter_execs(src, dst, keep):
-    """copy the executions (Reset line + following lines) whose Reset record satisfies keep(record)"""
+def filter_execs(src, dst, keep, limit=None, must=None):
+    """copy the executions (Reset line + following lines) whose Reset record satisfies keep(record); with a limit, an even
+    sample of at most about that many of them (the result-level search costs a noticeable fraction of a second per execution)"""
+    stride = 1
+    if limit:
+        total = 0
+        with open(src) as f:
+            for line in f:
+                if line.startswith('{"e":"Reset"') and keep(json.loads(line)):
+                    total += 1
+        stride = max(1, -(-total // limit))
     kept = dropped = 0
     on = True
+    seen = 0
+    ordinal = 0
     with open(src) as f, open(dst, "w") as out:
         for line in f:
             if line.startswith('{"e":"Reset"'):
+                ordinal += 1
                 on = bool(keep(json.loads(line)))
+                if on:
+                    on = (seen % stride == 0) or ordinal == must      # the execution the step-level model rejected is always re-judged
+                    seen += 1
                 kept += on
                 dropped += not on
             if on:
@@ -596,16 +611,33 @@ def validate_loose(run, module, cfg, trace_path, tag=None, timeout=1500, xmx="6g
         pth, first = chunks[k]
         return tlc(run, module, cfg, mode="trace", workers=1, env={"TRACE": pth}, timeout=timeout,
                    tag="%s-%d" % (base, k), coverage=False, xmx=xmx, deadlock=False)
+    # chunks are judged a few at a time; the first one that is not accepted settles the matter (chunks not yet started are
+    # dropped, so a trace that goes wrong early is rejected in the time one chunk takes)
+    from concurrent.futures import as_completed
+    results = {}
+    verdict = None
     with ThreadPoolExecutor(max_workers=min(4, max(1, NCPU // 4))) as ex:
-        results = list(ex.map(one, range(len(chunks))))
-    total = {"distinct": sum(r["distinct"] for r in results), "generated": sum(r["generated"] for r in results), "out": ""}
-    for k, res in enumerate(results):
-        if res["ok"] and "LOOSE_ACCEPTED" in res["out"]:
-            continue
+        futs = {ex.submit(one, k): k for k in range(len(chunks))}
+        for fu in as_completed(futs):
+            k = futs[fu]
+            try:
+                res = fu.result()
+            except Exception:
+                continue                      # cancelled
+            results[k] = res
+            if not (res["ok"] and "LOOSE_ACCEPTED" in res["out"]) and verdict is None:
+                verdict = k
+                for other in futs:
+                    other.cancel()
+    total = {"distinct": sum(r["distinct"] for r in results.values()), "generated": sum(r["generated"] for r in results.values()), "out": ""}
+    if verdict is not None:
+        bad = sorted(k for k, r in results.items() if not (r["ok"] and "LOOSE_ACCEPTED" in r["out"]))
+        k = bad[0]
+        res = results[k]
+        shutil.rmtree(cdir, ignore_errors=True)
         if res["ok"]:
             m = re.search(r"LOOSE_FURTHEST_EVENT\D+(\d+)", res["out"])
             far = chunks[k][1] - 1 + (int(m.group(1)) if m else 1)
-            shutil.rmtree(cdir, ignore_errors=True)
             return False, far, total
         raise Infra("loose trace validation %s: TLC failed rc=%s\n%s" % (module, res["rc"], "\n".join(res["out"].splitlines()[-30:])))
     shutil.rmtree(cdir, ignore_errors=True)
@@ -632,14 +664,16 @@ def check_trace(run, what, trace_module, cfg, trace_path, script_path=None, time
             # the implementation differs from the step-level model everywhere, and the result-level verdict on the
             # re-judgeable executions is the best available one; the others are reported as not judged).
             ltrace = run.path("loose-input-" + os.path.basename(trace_path))
-            kept, dropped = filter_execs(trace_path, ltrace, loose[2])
             rej = None
+            rej_ordinal = 0
             with open(trace_path) as f:
                 for i, line in enumerate(f, 1):
                     if i > matched + 1:
                         break
                     if line.startswith('{"e":"Reset"'):
                         rej = json.loads(line)
+                        rej_ordinal += 1
+            kept, dropped = filter_execs(trace_path, ltrace, loose[2], loose[3] if len(loose) > 3 else None, must=rej_ordinal)
             if not os.environ.get("VERIF_FORCE_LOOSE") and rej is not None and not loose[2](rej):
                 sok, _, _ = validate_trace(run, trace_module, cfg, ltrace, tag="tv-subset", timeout=timeout, xmx=xmx, extra_env=extra_env, spec_dir=spec_dir)
                 if sok:
